@@ -36,7 +36,7 @@ def run(ctx):
     ctx.rule("R-WHO", "construction sites are exactly the confirmed ones")
 
     # ---- C17.a validity ---------------------------------------------------------
-    K.check_validity_window(ctx, f)
+    K.check_validity_window(_Rescue(ctx, _validity_deciders(f)), f)
     tb = f.body(X + "Validity::trim")
     if tb is None:
         ctx.missing("R-FLOW", "Validity::trim", X + "Validity::trim")
@@ -52,8 +52,15 @@ def run(ctx):
             v = v.replace("cmp::max(other.not_before, self.not_before)", "cmp::max(self.not_before, other.not_before)")
             v = v.replace("cmp::min(other.not_after, self.not_after)", "cmp::min(self.not_after, other.not_after)")
             return v
-        ctx.ob("R-FLOW", "Validity::trim", [canon_trim(v) for v in vals] == [want],
-               "Validity::trim = (max of the not-befores, min of the not-afters)", where=tb.loc, detail=vals)
+        ok = [canon_trim(v) for v in vals] == [want]
+        how = None
+        if not ok:
+            # the same fact decided on every ordering of the four bounds: whichever way the larger not-before and the
+            # smaller not-after are picked (max/min, if/else, match on cmp, fields updated in place)
+            ok, how = _trim_decided(f, tb)
+        ctx.ob("R-FLOW", "Validity::trim", ok,
+               "Validity::trim = (max of the not-befores, min of the not-afters)", where=tb.loc,
+               detail=vals if how is None else {"returns": vals, "on_every_ordering": how})
     nb = f.body(X + "Validity::new")
     if nb is not None:
         vals = [render(t) for _, _, t in success_values(nb)]
@@ -61,7 +68,7 @@ def run(ctx):
                "Validity::new stores its arguments in order", where=nb.loc, detail=vals)
 
     # ---- C17.b pivots ------------------------------------------------------------
-    K.check_time_pivots(ctx, f)
+    K.check_time_pivots(_Rescue(ctx, _pivot_deciders(f)), f)
     # writers: year % 100 for UTCTime, full year for GeneralizedTime; six fields each
     for ty, first in (("UtcTime", r"^Rem\(DateTime::year\(self\.0\), 100\)$"), ("GeneralizedTime", r"^DateTime::year\(self\.0\)$")):
         wb = f.body("<%s%s as bcder::encode::PrimitiveContent>::write_encoded" % (X, ty))
@@ -76,6 +83,16 @@ def run(ctx):
         want_rest = ["DateTime::month(self.0)", "DateTime::day(self.0)", "DateTime::hour(self.0)", "DateTime::minute(self.0)",
                      "DateTime::second(self.0)"]
         ok = len(parts) == 6 and re.match(first, parts[0]) is not None and parts[1:] == want_rest
+        # what is written, read off the format template(s): the values in the order the template uses them (a captured
+        # `{name}` argument, several write! calls in a row), each zero-padded to its fixed width, then 'Z'
+        script = _format_script(f, wb)
+        if script is not None:
+            w0 = 2 if ty == "UtcTime" else 4
+            first2 = first[:-1].replace("^Rem", "^(Rem|\\w*::?rem_euclid)") + "$"
+            want = [("num", w0)] + [("num", 2)] * 5 + [("lit", b"Z")]
+            ok = [(x[0], x[2] if x[0] == "num" else x[1]) for x in script] == want and \
+                re.match(first2, script[0][1]) is not None and [x[1] for x in script[1:6]] == want_rest
+            parts = [x[1] if x[0] == "lit" else "%s:0%d" % (x[1], x[2]) if x[3] else "%s:%s" % (x[1], x[2]) for x in script]
         ctx.ob("R-FLOW", "%s::write_encoded:fields" % ty, ok,
                "%s writes (year%s, month, day, hour, minute, second) of its own time" % (ty, " % 100" if ty == "UtcTime" else ""),
                where=wb.loc, detail=parts)
@@ -222,9 +239,7 @@ def run(ctx):
         else:
             K.check_regions(ctx, "R-REG", "Serial::from_slice", paths, it, [
                 ("len=0", RC("n", 0, 0), lambda p: outcome_str(p.outcome).startswith("return Err("), "Err"),
-                ("1≤len≤20", RC("n", 1, 20), lambda p: outcome_str(p.outcome) == "return Serial::from_array(array::default())" and
-                 any(e[0].endswith("copy_from_slice") and e[1][0] == "array::index_mut(array::default(), ops::RangeFrom{start: Sub(20, n)})"
-                     and e[1][1] == "s" for e in p.effects), "from_array(left-padded copy: res[20-len..] = s)"),
+                ("1≤len≤20", RC("n", 1, 20), _left_padded_copy, "from_array(left-padded copy: res[20-len..] = s)"),
                 ("len>20", RC("n", 21, None), lambda p: outcome_str(p.outcome).startswith("return Err("), "Err"),
             ], fs.loc)
     fa = f.body(S + "::from_array")
@@ -249,15 +264,20 @@ def run(ctx):
         b = f.body(fn)
         if b is None:
             continue
-        # res[0] &= 0x7F on every success path
+        # the first octet is overwritten with a value below 0x80 on every success path: `res[0] &= 0x7F`, `&= !0x80`,
+        # `= res[0] & MASK`, `%= 0x80`, … — the assigned expression is evaluated for all 256 values of the old octet
         blocks = set()
         s = K.sym_of(b)
+        consts = getattr(f, "consts", {})
         for bi, blk in enumerate(b.blocks):
             for st in blk["stmts"]:
-                if st["s"] == "assign" and st["rv"]["r"] == "bin" and st["rv"]["bop"] == "BitAnd":
-                    if render(s.operand(st["rv"]["b"])) == "127" and any(
-                            (p[0] == "ci" and p[1] == 0) or (p[0] == "i" and render(s.local(p[1])) == "0") for p in st["pl"]["p"]):
-                        blocks.add(bi)
+                if st["s"] != "assign" or not any((p[0] == "ci" and p[1] == 0 and not p[3]) or
+                                                  (p[0] == "i" and render(s.local(p[1])) == "0") for p in st["pl"]["p"]):
+                    continue
+                t = K.fold_consts(strip_deep(s.rvalue(st["rv"])), consts)
+                vals = [_eval_u8(t, v) for v in range(256)]
+                if all(x is not None and x < 128 for x in vals):
+                    blocks.add(bi)
         oc = outcome(b)
         p = b.path(0, oc.returns(), set(oc.fail_blocks) | blocks)
         ctx.ob("R-CHK", "%s:clears-top-bit" % short(fn), bool(blocks) and p is None,
@@ -308,3 +328,1376 @@ def _arms(b, oc, two, four):
         arms["utc"] = utc
     arms["generalized"] = gen
     return arms
+
+
+# ---------------------------------------------------------------------------
+# anchors found by behaviour
+
+_INT_TYS = ("u8", "u16", "u32", "u64", "u128", "usize", "i8", "i16", "i32", "i64", "i128", "isize")
+_DIGITS = frozenset(range(0x30, 0x3a))
+_NONDIGITS = frozenset(range(256)) - _DIGITS
+# widths the two readers had when the rules were reviewed: used only when the width cannot be read off the body
+_REVIEWED_WIDTH = {X + "read_two_char": 2, X + "read_four_char": 4}
+# combinators / operators that hand on the good payload (Some / Ok / Single) of their first argument unchanged
+_PAYLOAD_KEEPING = {"ok_or", "ok_or_else", "ok", "map_err", "inspect", "inspect_err", "single", "branch", "copied", "cloned"}
+_GOOD_VARIANTS = ("Some", "Ok", "Single", "Continue")
+
+
+def _in_x509(b):
+    return b.file.endswith("repository/x509.rs") and not is_derived(b) and "::test" not in b.name
+
+
+def _std_call(t):
+    return t[0] == "call" and ((t[3] or {}).get("krate") in ("core", "std", "alloc", "chrono"))
+
+
+def _peel_payload(t):
+    """The Option / Result / call a value is the good payload of: `x?`, `match x { Ok(v) => v, .. }`,
+    `x.ok_or(e)?`, `x.map_err(f)?` … all lead to x."""
+    t = strip_deep(t)
+    while True:
+        if t[0] == "mvar":
+            t = strip_deep(t[3])
+        elif t[0] == "field" and str(t[2]) == "0" and t[1][0] == "variant" and t[1][2] in _GOOD_VARIANTS:
+            t = strip_deep(t[1][1])
+        elif _std_call(t) and t[3].get("name") in _PAYLOAD_KEEPING and t[2]:
+            t = strip_deep(t[2][0])
+        elif t[0] == "cast":
+            t = strip_deep(t[1])
+        else:
+            return t
+
+
+def _is_wire_byte(t):
+    t = _peel_payload(t)
+    return t[0] == "call" and (t[3] or {}).get("name") == "take_u8"
+
+
+def _const_is(t, value):
+    t = strip_deep(t)
+    while t[0] == "cast":
+        t = strip_deep(t[1])
+    return t[0] == "const" and not isinstance(t[1], bool) and t[1] == value
+
+
+def _byte_is_edges(bd, s, bb, value, consts):
+    """Edges of the switch at bb on which `<octet taken from the source> == value` holds: `b != v` / `b == v` with
+    either arm order, `v == b`, a named constant for v, `match b { v => .., _ => .. }`."""
+    from engine import orderlogic as OL
+    t = bd.term(bb)
+    if t["t"] != "switch":
+        return None
+    d = K.fold_consts(strip_deep(s.operand(t["discr"])), consts)
+    if t.get("dty") == "bool":
+        a = OL.atom(d)
+        truth = True
+        while a[0] == "not":
+            a, truth = a[1], not truth
+        if a[0] != "cmp" or a[1] not in ("==", "!="):
+            return None
+        x, y = a[2], a[3]
+        if not ((_const_is(y, value) and _is_wire_byte(x)) or (_const_is(x, value) and _is_wire_byte(y))):
+            return None
+        e = switch_bool_edges(bd, bb)
+        if e is None:
+            return None
+        eq_when_true = (a[1] == "==") == truth
+        return [(bb, e[1] if eq_when_true else e[0])]
+    if _is_wire_byte(d):
+        for v, tb in t["targets"]:
+            if v == value:
+                # the edge is taken for this value only
+                if tb == t["otherwise"] or any(tb2 == tb and v2 != value for v2, tb2 in t["targets"]):
+                    return None
+                return [(bb, tb)]
+    return None
+
+
+class _Readers:
+    """The fixed-width number readers of x509.rs, whatever they are called: functions that return
+    Result<integer, DecodeError<..>> and take octets from the source (themselves or through another reader)."""
+
+    def __init__(self, f):
+        self.f = f
+        self.cand = set()
+        self._width = {}
+        self._dig = {}
+        self.guarded = set()
+        self.used = set()
+        self.why = {}
+        rx = re.compile(r"^std::result::Result<(%s), bcder::decode::DecodeError<" % "|".join(_INT_TYS))
+        for n, b in f.bodies.items():
+            if not n.startswith(X) or "{closure" in n or "{constant" in n or not _in_x509(b) or not rx.match(b.ret_ty or ""):
+                continue
+            self.cand.add(n)
+        # keep those that take octets (directly or through another candidate)
+        takes = {n for n in self.cand if any(c.name == "take_u8" for c in f.body(n).calls() if not f.body(n).is_cleanup(c.bb))}
+        changed = True
+        while changed:
+            changed = False
+            for n in self.cand - takes:
+                if any(c.res in takes for c in f.body(n).calls() if c.is_static):
+                    takes.add(n)
+                    changed = True
+        self.cand = takes
+
+    def width(self, c):
+        if not c.is_static or c.res not in self.cand:
+            return None
+        w = self._w(c.res, tuple(c.ga or ()))
+        if w is None:
+            w = _REVIEWED_WIDTH.get(c.res)
+        if w:
+            self.used.add(c.res)
+        return w
+
+    def _array_len(self, b, ga):
+        ns = set()
+        for l in b.locals:
+            m = re.match(r"^\[u8; (\w+)\]$", l["ty"])
+            if m:
+                ns.add(m.group(1))
+        if len(ns) != 1:
+            return None
+        n = ns.pop()
+        if n.isdigit():
+            return int(n)
+        nums = [int(re.match(r"^(\d+)", g).group(1)) for g in ga if re.match(r"^\d+(_?usize)?$", g)]
+        return nums[0] if len(nums) == 1 else None
+
+    def _w(self, name, ga, depth=0):
+        key = (name, ga)
+        if key in self._width:
+            return self._width[key]
+        self._width[key] = None
+        b = self.f.body(name)
+        oc = outcome(b)
+        loops = set()
+        for comp in b.cycles_sccs():
+            loops.update(comp)
+        total, looped, res = 0, 0, "?"
+        for c in b.calls():
+            if b.is_cleanup(c.bb) or not c.is_static:
+                continue
+            if c.name == "take_u8":
+                w = 1
+            elif c.res in self.cand and c.res != name and depth < 3:
+                w = self._w(c.res, tuple(c.ga or ()), depth + 1)
+                if w is None:
+                    w = _REVIEWED_WIDTH.get(c.res)
+                if w is None:
+                    res = None
+                    break
+            else:
+                continue
+            if c.bb in loops:
+                looped += w
+            elif b.path(0, oc.returns(), set(oc.fail_blocks) | {c.bb}) is None:
+                total += w
+            else:
+                res = None      # an octet taken on some success paths only: no fixed width
+                break
+        if res is not None:
+            if looped:
+                n = self._array_len(b, ga)
+                res = None if n is None else total + looped * n
+            else:
+                res = total or None
+        self._width[key] = res
+        return res
+
+    # digits only -----------------------------------------------------------------
+    def digits_only(self, c):
+        return c.is_static and c.res in self.cand and self.digits_only_fn(c.res)
+
+    def digits_only_fn(self, name):
+        if name in self._dig:
+            return self._dig[name]
+        self._dig[name] = False
+        f = self.f
+        b = f.body(name)
+        # (1) every success path goes through a guarded integer parse (in the function, a callee or a closure it
+        #     hands to a combinator), or through another digits-only reader
+        mp = MustPass(f, lambda c: (c.body.name, c.bb) in self.guarded or
+                      (c.is_static and c.res in self.cand and c.res != name and self.digits_only_fn(c.res)), name="digits-only parse")
+        ok = mp.holds(name)
+        if not ok:
+            # (2) every octet taken is itself tested to be a digit before any success return
+            ok, det = _each_octet_is_digit(f, b, self)
+            if not ok:
+                self.why[name] = {"no_guarded_parse": K.why(f, mp, name), "per_octet": det}
+        self._dig[name] = ok
+        return ok
+
+
+def _digit_literal_edges(f, bd, sym, bb, call_bb, consts):
+    """Edges of the switch at bb on which the octet produced by the take_u8 call in block `call_bb` is known to lie in
+    b'0'..=b'9' — returns (kind, edges) with kind 'digit' (the whole fact), 'lo' (48 <= c) or 'hi' (c <= 57)."""
+    from engine import orderlogic as OL
+    t = bd.term(bb)
+    if t["t"] != "switch" or t.get("dty") != "bool":
+        return None
+    e = switch_bool_edges(bd, bb)
+    if e is None:
+        return None
+    d = K.fold_consts(strip_deep(sym.operand(t["discr"])), consts)
+
+    def mine(x):
+        x = _peel_payload(x)
+        return x[0] == "call" and (x[3] or {}).get("name") == "take_u8" and (x[3] or {}).get("bb") == call_bb
+    a = OL.atom(d)
+    truth = True
+    while a[0] == "not":
+        a, truth = a[1], not truth
+    if a[0] == "cmp":
+        op, x, y = a[1], a[2], a[3]
+        if op in (">", ">="):
+            op, x, y = {">": "<", ">=": "<="}[op], y, x
+        if op not in ("<", "<="):
+            return None
+        # x op y
+        if mine(y) and strip_deep(x)[0] == "const":
+            v = strip_deep(x)[1]
+            lo = v + 1 if op == "<" else v          # holds: c >= lo ; negation: c <= lo - 1
+            if lo == 48:
+                return ("lo", [(bb, e[1] if truth else e[0])])
+            if lo - 1 == 57:
+                return ("hi", [(bb, e[0] if truth else e[1])])
+        if mine(x) and strip_deep(y)[0] == "const":
+            v = strip_deep(y)[1]
+            hi = v - 1 if op == "<" else v          # holds: c <= hi ; negation: c >= hi + 1
+            if hi == 57:
+                return ("hi", [(bb, e[1] if truth else e[0])])
+            if hi + 1 == 48:
+                return ("lo", [(bb, e[0] if truth else e[1])])
+            # c.wrapping_sub(b'0') < 10
+        xs = strip_deep(x)
+        if xs[0] == "call" and (xs[3] or {}).get("name") == "wrapping_sub" and len(xs[2]) == 2 and mine(xs[2][0]) and \
+                _const_is(xs[2][1], 48) and strip_deep(y)[0] == "const" and \
+                (strip_deep(y)[1] - (1 if op == "<" else 0)) == 9:
+            return ("digit", [(bb, e[1] if truth else e[0])])
+        return None
+    dd = strip_deep(d)
+    while dd[0] == "un" and dd[1] == "Not":
+        dd = strip_deep(dd[2])
+    if dd[0] == "call" and _std_call(dd):
+        nm = dd[3].get("name")
+        if nm == "is_ascii_digit" and dd[2] and mine(dd[2][0]):
+            return ("digit", [(bb, e[1] if truth else e[0])])
+        if nm == "is_digit" and len(dd[2]) == 2 and mine(dd[2][0]) and _const_is(dd[2][1], 10):
+            return ("digit", [(bb, e[1] if truth else e[0])])
+        if nm in ("is_some", "is_none") and dd[2]:
+            inner = strip_deep(dd[2][0])
+            if inner[0] == "call" and (inner[3] or {}).get("name") == "to_digit" and len(inner[2]) == 2 and \
+                    mine(inner[2][0]) and _const_is(inner[2][1], 10):
+                some = (nm == "is_some") == truth
+                return ("digit", [(bb, e[1] if some else e[0])])
+    return None
+
+
+def _each_octet_is_digit(f, b, readers):
+    """Every octet the reader takes is tested to be an ASCII digit on every success path (`c.is_ascii_digit()`,
+    `b'0' <= c && c <= b'9'`, a `b'0'..=b'9'` pattern, `(c as char).to_digit(10)` matched for Some)."""
+    oc = outcome(b)
+    sym = oc.sym
+    consts = getattr(f, "consts", {})
+    takes = [c for c in b.calls() if c.name == "take_u8" and not b.is_cleanup(c.bb)]
+    others = [c for c in b.calls() if c.is_static and c.res in readers.cand and c.res != b.name and not b.is_cleanup(c.bb)]
+    if not takes and not others:
+        return False, "takes no octet"
+    for c in others:
+        if not readers.digits_only_fn(c.res):
+            return False, "%s is not digits-only" % short(c.res)
+    rets = oc.returns()
+    for c in takes:
+        cuts = {"digit": set(), "lo": set(), "hi": set()}
+        for bi, blk in enumerate(b.blocks):
+            if blk["term"]["t"] != "switch" or blk.get("cleanup"):
+                continue
+            r = _digit_literal_edges(f, b, sym, bi, c.bb, consts)
+            if r:
+                cuts[r[0]].update(r[1])
+            else:
+                # `match (c as char).to_digit(10) { Some(d) => .., None => fail }`
+                t = blk["term"]
+                d = strip(sym.operand(t["discr"]))
+                if d[0] == "discr":
+                    inner = _peel_payload(d[1])
+                    if inner[0] == "call" and (inner[3] or {}).get("name") == "to_digit" and len(inner[2]) == 2 and \
+                            _const_is(inner[2][1], 10):
+                        x = _peel_payload(inner[2][0])
+                        if x[0] == "call" and (x[3] or {}).get("name") == "take_u8" and (x[3] or {}).get("bb") == c.bb:
+                            for v, tb in t["targets"]:
+                                if v == 1:
+                                    cuts["digit"].add((bi, tb))
+        def cut(edges):
+            return bool(edges) and b.path(0, rets, set(oc.fail_blocks), edges) is None
+        if cut(cuts["digit"]) or (cut(cuts["lo"]) and cut(cuts["hi"])):
+            continue
+        # the value is only used as the payload of to_digit(10)? (ok_or / `?` on it)
+        return False, {"octet_taken_at": c.where(), "digit_tests_found": {k: sorted(v) for k, v in cuts.items()}}
+    return True, None
+
+
+def _decoder_bodies(f, readers):
+    out = []
+    for n, b in sorted(f.bodies.items()):
+        if not n.startswith(X) or not _in_x509(b):
+            continue
+        two = [c for c in b.calls() if not b.is_cleanup(c.bb) and readers.width(c) == 2]
+        if len(two) >= 5:
+            out.append(b)
+    return out
+
+
+_CHRONO_DATE_CTORS = ("ymd_opt", "with_ymd_and_hms", "from_ymd_opt")
+
+
+def _calendar_fns(f):
+    """The function(s) that turn the six numbers into a Time: Time::from_parts if it is still there, else whatever
+    fallible function of x509.rs builds a Time through chrono's checked date constructors."""
+    b = f.body(X + "Time::from_parts")
+    if b is not None:
+        return [b]
+    out = []
+    for n, b in sorted(f.bodies.items()):
+        if not n.startswith(X) or "{closure" in n or not _in_x509(b):
+            continue
+        if not re.match(r"^std::result::Result<repository::x509::Time, ", b.ret_ty or ""):
+            continue
+        if any(c.name in _CHRONO_DATE_CTORS and c.krate == "chrono" for c in b.calls() if not b.is_cleanup(c.bb)):
+            out.append(b)
+    return out
+
+
+# what a calendar validator may return as Ok, in the canonical form of _Canon (`#k` = k-th of the six parts)
+_CALENDAR_FORMS = [re.compile(x) for x in (
+    r"^Ok\(Time\(good\((\w+::)?and_hms_opt\(good\((\w+::)?ymd_opt\(Utc\(\), #0, #1, #2\)\), #3, #4, #5\)\)\)\)$",
+    r"^Ok\(Time\(good\((\w+::)?with_ymd_and_hms\(Utc\(\), #0, #1, #2, #3, #4, #5\)\)\)\)$",
+    r"^Ok\(Time\((\w+::)?and_utc\(good\((\w+::)?and_hms_opt\(good\((\w+::)?from_ymd_opt\(#0, #1, #2\)\), #3, #4, #5\)\)\)\)\)$",
+)]
+
+
+class _Canon:
+    """Canonical text of the values a fallible function returns as Ok.  `good(X)` is the payload X carries when it is
+    Some / Ok / LocalResult::Single — however it was taken out (match, let-else, if-let, `?`, ok_or(_else), map,
+    and_then with a closure); `#k` is the k-th component of the parts (field k of a tuple parameter, or the k-th of
+    several parameters), whatever the parameter is called or however its pattern destructures it."""
+
+    def __init__(self, f, body):
+        self.f = f
+        self.root = body
+        self.env = [{}]
+        self.comps = {}
+        n = body.arg_count
+        names = [body.local_name(i) or "_%d" % i for i in range(1, n + 1)]
+        if n >= 6:
+            for k, nm in enumerate(names[-6:]):
+                self.comps[("param", nm)] = "#%d" % k
+        self.tuple_param = names[-1] if 1 <= n < 6 else None
+        self.in_root = True
+
+    def success_forms(self):
+        out = []
+        for _, _, t in success_values(self.root):
+            out.append("Ok(%s)" % self.payload(t))
+        return out
+
+    # values -------------------------------------------------------------------------------
+    def val(self, t, depth=0):
+        t = strip_deep(t)
+        if depth > 30:
+            return "…"
+        k = t[0]
+        if k in ("param", "upvar"):
+            v = self.env[-1].get((k, t[1]))
+            if v is not None:
+                return v
+            if self.in_root and (k, t[1]) in self.comps:
+                return self.comps[(k, t[1])]
+            return render(t)
+        if k == "mvar":
+            return self.val(t[3], depth + 1)
+        if k == "field":
+            base = strip_deep(t[1])
+            if base[0] == "variant" and str(t[2]) == "0":
+                if base[2] in _GOOD_VARIANTS:
+                    return self.payload(base[1], depth + 1)
+                return "%s(%s)" % (base[2], self.val(base[1], depth + 1))
+            if self.in_root and base[0] == "param" and base[1] == self.tuple_param and str(t[2]).isdigit() and \
+                    ("param", base[1]) not in self.env[-1]:
+                return "#%s" % t[2]
+            return "%s.%s" % (self.val(base, depth + 1), t[2])
+        if k == "agg":
+            if t[1] in ("tuple", "array"):
+                return "%s(%s)" % (t[1], ", ".join(self.val(v, depth + 1) for _, v in t[3]))
+            return "%s(%s)" % (t[2] or short(t[1]), ", ".join(self.val(v, depth + 1) for _, v in t[3]))
+        if k == "cast":
+            return "(%s as %s)" % (self.val(t[1], depth + 1), t[2])
+        if k == "call":
+            info = t[3] or {}
+            nm = info.get("name")
+            # a one-line constructor of the crate (`Time::new(dt)`) is the literal it builds
+            cb = self.f.body(t[1])
+            if cb is not None and len(cb.blocks) <= 2 and cb.arg_count == len(t[2]) and "{closure" not in t[1]:
+                sv = success_values(cb)
+                if len(sv) == 1 and not any(c.is_static for c in cb.calls()):
+                    m = {("param", cb.local_name(i + 1) or "_%d" % (i + 1)): self.val(a, depth + 1) for i, a in enumerate(t[2])}
+                    return self._inside(cb, m, lambda: self.val(sv[0][2], depth + 1))
+            label = nm if info.get("krate") == "chrono" and nm else render(("call", t[1], (), t[3]))[:-2]
+            return "%s(%s)" % (label, ", ".join(self.val(a, depth + 1) for a in t[2]))
+        if k == "bin":
+            return "%s(%s, %s)" % (t[1], self.val(t[2], depth + 1), self.val(t[3], depth + 1))
+        if k == "un":
+            return "%s(%s)" % (t[1], self.val(t[2], depth + 1))
+        return render(t)
+
+    def _inside(self, body, mapping, fn):
+        self.env.append(mapping)
+        was = self.in_root
+        self.in_root = False
+        try:
+            return fn()
+        finally:
+            self.env.pop()
+            self.in_root = was
+
+    def _apply(self, g, x, depth):
+        """Text of g(x) for a function value g (constructor, function item or closure) and the text x."""
+        g = strip_deep(g)
+        if g[0] == "fnref":
+            if g[1] in getattr(self.f, "adts", {}) or self.f.body(g[1]) is None:
+                return "%s(%s)" % (short(g[1]).split("::")[-1], x)
+            cb = self.f.body(g[1])
+            caps = {}
+        elif g[0] == "closure":
+            cb = self.f.body(g[1])
+            if cb is None:
+                return "%s(%s)" % (render(g), x)
+            caps = self._captures(cb, g)
+        else:
+            return "%s(%s)" % (render(g), x)
+        first = 2 if g[0] == "closure" else 1
+        m = dict(caps)
+        if cb.arg_count >= first:
+            m[("param", cb.local_name(first) or "_%d" % first)] = x
+        vals = [t for _, _, t in success_values(cb)]
+        if not vals:
+            return "%s(%s)" % (render(g), x)
+        return self._inside(cb, m, lambda: " | ".join(sorted({self._ret(cb, t, depth + 1) for t in vals})))
+
+    def _ret(self, cb, t, depth):
+        return self.val(t, depth)
+
+    def _captures(self, cb, ct):
+        m = {}
+        for name, pl in cb.rec.get("upvars", []):
+            idx = None
+            for pe in pl.get("p", []):
+                if pe and pe[0] == "f":
+                    try:
+                        idx = int(pe[1])
+                    except (TypeError, ValueError):
+                        idx = None
+                    break
+            if idx is not None and idx < len(ct[2]):
+                m[("upvar", name)] = self.val(ct[2][idx])
+        return m
+
+    # payloads ------------------------------------------------------------------------------
+    def payload(self, t, depth=0):
+        """Text of the value t carries when it is Some / Ok / Single."""
+        t = strip_deep(t)
+        if depth > 30:
+            return "…"
+        if t[0] == "mvar":
+            return self.payload(t[3], depth + 1)
+        if t[0] == "agg" and t[2] in _GOOD_VARIANTS and len(t[3]) == 1:
+            return self.val(t[3][0][1], depth + 1)
+        if _std_call(t) and t[2]:
+            nm = t[3].get("name")
+            if nm in _PAYLOAD_KEEPING:
+                return self.payload(t[2][0], depth + 1)
+            if nm == "map" and len(t[2]) == 2:
+                return self._apply(t[2][1], self.payload(t[2][0], depth + 1), depth + 1)
+            if nm == "and_then" and len(t[2]) == 2:
+                g = strip_deep(t[2][1])
+                x = self.payload(t[2][0], depth + 1)
+                cb = self.f.body(g[1]) if g[0] in ("closure", "fnref") else None
+                if cb is not None:
+                    first = 2 if g[0] == "closure" else 1
+                    m = self._captures(cb, g) if g[0] == "closure" else {}
+                    if cb.arg_count >= first:
+                        m[("param", cb.local_name(first) or "_%d" % first)] = x
+                    vals = [v for _, _, v in success_values(cb)]
+                    if vals:
+                        return self._inside(cb, m, lambda: " | ".join(sorted({self.payload(v, depth + 1) for v in vals})))
+        return "good(%s)" % self.val(t, depth + 1)
+
+
+# ---------------------------------------------------------------------------
+# integer parses of octets
+
+def _closure_sites(f, cname):
+    """Where a closure is handed to a call: [(body, call site, closure term)]."""
+    idx = getattr(f, "_c17_closure_sites", None)
+    if idx is None:
+        idx = {}
+        for n, b in f.bodies.items():
+            if not n.startswith(X) or not _in_x509(b):
+                continue
+            s = K.sym_of(b)
+            for c in b.calls():
+                if b.is_cleanup(c.bb):
+                    continue
+                for a in c.args:
+                    t = strip(s.operand(a))
+                    if t[0] == "closure":
+                        idx.setdefault(t[1], []).append((b, c, t))
+        try:
+            f._c17_closure_sites = idx
+        except AttributeError:
+            pass
+    return idx.get(cname, [])
+
+
+def _int_parse_type(c):
+    if not c.is_static or c.krate not in ("core", "std", "alloc"):
+        return None
+    ga = list(c.ga or ())
+    if c.name == "from_str" and c.trait == "std::str::FromStr" and ga and ga[0] in _INT_TYS:
+        return ga[0]
+    if c.name == "parse" and re.match(r"^(core|std)::str::", c.fn or "") and ga and ga[0] in _INT_TYS:
+        return ga[0]
+    if c.name == "from_str_radix":
+        m = re.search(r"<impl (\w+)>::from_str_radix$", c.res or c.fn or "")
+        if m and m.group(1) in _INT_TYS:
+            return m.group(1)
+    return None
+
+
+def _text_sources(f, b, t, bb, depth=0):
+    """Where the text `t` (in body b, used in block bb) is made from octets: [(body, block that uses it, octet buffer)]
+    for every `str::from_utf8(buffer)` it is the Ok payload of — followed through closure parameters (the payload
+    of the receiver of the combinator the closure is handed to), captures and function parameters (the callers)."""
+    t = _peel_payload(t)
+    if t[0] == "call" and (t[3] or {}).get("name") in ("from_utf8", "from_utf8_unchecked", "from_utf8_mut") and t[2]:
+        return [(b, bb, strip_deep(t[2][0]))]
+    if depth > 3:
+        return []
+    out = []
+    is_closure = "{closure" in b.name.rsplit("::", 1)[-1]
+    if t[0] == "param" and is_closure:
+        for pb, pc, ct in _closure_sites(f, b.name):
+            args = K.arg_terms(pc)
+            if args and strip_deep(args[0])[0] != "closure":
+                out += _text_sources(f, pb, args[0], pc.bb, depth + 1)
+    elif t[0] == "upvar" and is_closure:
+        for pb, pc, ct in _closure_sites(f, b.name):
+            for name, pl in b.rec.get("upvars", []):
+                if name != t[1]:
+                    continue
+                for pe in pl.get("p", []):
+                    if pe and pe[0] == "f":
+                        try:
+                            i = int(pe[1])
+                        except (TypeError, ValueError):
+                            break
+                        if i < len(ct[2]):
+                            out += _text_sources(f, pb, ct[2][i], pc.bb, depth + 1)
+                        break
+    elif t[0] == "param":
+        names = [b.local_name(i) or "_%d" % i for i in range(1, b.arg_count + 1)]
+        if t[1] in names:
+            i = names.index(t[1])
+            for n2, b2 in f.bodies.items():
+                if not n2.startswith(X) or not _in_x509(b2):
+                    continue
+                for c2 in b2.calls():
+                    if c2.is_static and c2.res == b.name and not b2.is_cleanup(c2.bb) and i < len(c2.args):
+                        out += _text_sources(f, b2, K.arg_terms(c2)[i], c2.bb, depth + 1)
+    return out
+
+
+def _buffer_sig(t):
+    out = set()
+    for x in walk(strip_deep(t)):
+        if x[0] in ("param", "upvar"):
+            out.add((x[0], x[1]))
+        elif x[0] in ("var", "mvar"):
+            out.add(("local", x[2]))
+        elif x[0] == "call" and (x[3] or {}).get("name") == "take_u8":
+            out.add(("take", (x[3] or {}).get("bb")))
+    return out
+
+
+def _pred_class(f, pred):
+    """The set of octets a predicate (function item or closure) accepts."""
+    pred = strip_deep(pred)
+    if pred[0] == "fnref":
+        if pred[1].endswith("::is_ascii_digit"):
+            return _DIGITS
+        if f.body(pred[1]) is None:
+            return None
+        cls, _ = absint.byte_class(f, pred[1], arg_index=0)
+        return None if cls is None else frozenset(cls)
+    if pred[0] == "closure" and f.body(pred[1]) is not None:
+        cls, _ = absint.byte_class(f, pred[1], arg_index=1)
+        return None if cls is None else frozenset(cls)
+    return None
+
+
+def _all_digits_edges(f, bd, buf):
+    """Edges of bd on which every octet of `buf` is known to be an ASCII digit: `buf.iter().all(is digit)` true,
+    `any(is not digit)` false, `find / position(is not digit)` None."""
+    sym = K.sym_of(bd)
+    want = _buffer_sig(buf)
+    edges = set()
+
+    def quant(t):
+        """(name, predicate class) if t is all/any/find/position over the buffer."""
+        t = strip_deep(t)
+        if t[0] != "call" or (t[3] or {}).get("name") not in ("all", "any", "find", "position") or len(t[2]) != 2 or \
+                not ((t[3] or {}).get("trait") or "").endswith("Iterator"):
+            return None
+        if want and not (_buffer_sig(t[2][0]) & want):
+            return None
+        return t[3]["name"], _pred_class(f, t[2][1])
+    for bi, blk in enumerate(bd.blocks):
+        t = blk["term"]
+        if t["t"] != "switch" or blk.get("cleanup"):
+            continue
+        d = strip_deep(sym.operand(t["discr"]))
+        if t.get("dty") == "bool":
+            e = switch_bool_edges(bd, bi)
+            if e is None:
+                continue
+            pos = True
+            while d[0] == "un" and d[1] == "Not":
+                pos = not pos
+                d = strip_deep(d[2])
+            q = quant(d)
+            if q and q[0] == "all" and q[1] == _DIGITS:
+                edges.add((bi, e[1] if pos else e[0]))
+            elif q and q[0] == "any" and q[1] == _NONDIGITS:
+                edges.add((bi, e[0] if pos else e[1]))
+            elif d[0] == "call" and (d[3] or {}).get("name") in ("is_none", "is_some") and d[2]:
+                q = quant(d[2][0])
+                if q and q[0] in ("find", "position") and q[1] == _NONDIGITS:
+                    none_true = ((d[3]["name"] == "is_none") == pos)
+                    edges.add((bi, e[1] if none_true else e[0]))
+        elif d[0] == "discr":
+            from engine.rules import peel_variant_keeping
+            q = quant(peel_variant_keeping(d[1]))
+            if q and q[0] in ("find", "position") and q[1] == _NONDIGITS:
+                for v, tb in bd.switch_edges(bi):
+                    if v == 0:
+                        edges.add((bi, tb))
+    return edges
+
+
+def _int_parses(f):
+    """[(body, call, integer type, [(anchor body, anchor block, buffer)], [guarded?])] for every std integer parse in
+    x509.rs whose text is made from octets."""
+    out = []
+    for n, b in sorted(f.bodies.items()):
+        if not n.startswith(X) or not _in_x509(b):
+            continue
+        for c in b.calls():
+            if b.is_cleanup(c.bb):
+                continue
+            ity = _int_parse_type(c)
+            if ity is None or not c.args:
+                continue
+            srcs = _text_sources(f, b, K.arg_terms(c)[0], c.bb)
+            if not srcs:
+                continue
+            oks = []
+            for ab, abb, buf in srcs:
+                edges = _all_digits_edges(f, ab, buf)
+                oks.append(bool(edges) and abb not in ab.reachable(0, removed_edges=edges))
+            out.append((b, c, ity, srcs, oks))
+    return out
+
+
+# ---------------------------------------------------------------------------
+# small loop-free functions decided on every ordering of the quantities they compare
+
+def _map_term(t, fn):
+    """Rebuild a term bottom-up, fn(node) -> replacement or None."""
+    r = fn(t)
+    if r is not None:
+        return r
+    k = t[0]
+    if k == "field":
+        return ("field", _map_term(t[1], fn), t[2], t[3] if len(t) > 3 else None)
+    if k == "variant":
+        return ("variant", _map_term(t[1], fn), t[2])
+    if k == "mvar":
+        return ("mvar", t[1], t[2], _map_term(t[3], fn))
+    if k == "index":
+        return ("index", _map_term(t[1], fn), _map_term(t[2], fn))
+    if k == "call":
+        return ("call", t[1], tuple(_map_term(a, fn) for a in t[2]), t[3])
+    if k == "bin":
+        return ("bin", t[1], _map_term(t[2], fn), _map_term(t[3], fn))
+    if k == "un":
+        return ("un", t[1], _map_term(t[2], fn))
+    if k == "cast":
+        return ("cast", _map_term(t[1], fn), t[2])
+    if k in ("discr", "len"):
+        return (k, _map_term(t[1], fn))
+    if k == "agg":
+        return ("agg", t[1], t[2], tuple((f_, _map_term(v, fn)) for f_, v in t[3]))
+    return t
+
+
+class _Undecided(Exception):
+    pass
+
+
+def _order_paths(body, max_paths=600, goals=None):
+    """All acyclic entry→return paths of a loop-free body (with `goals`: entry→goal block, defs['@'] = that block):
+    [(conds, defs)].  conds: ('atom', orderlogic atom, truth) |
+    ('cmp3', x, y, allowed orderings ⊆ {-1, 0, 1}) | ('opaque', text); defs: {local: term last assigned on the path}
+    (for locals with several definitions, incl. the return place)."""
+    from engine import orderlogic as OL
+    sym = K.sym_of(body)
+    out = []
+    stack = [(0, (), {}, frozenset())]
+    while stack:
+        bb, conds, defs, seen = stack.pop()
+        if bb in seen:
+            raise _Undecided("loop")
+        seen = seen | {bb}
+        blk = body.blocks[bb]
+        defs = dict(defs)
+
+        def res(t):
+            return _resolve(t, defs)
+        for st in blk["stmts"]:
+            if st["s"] == "assign":
+                l = st["pl"]["l"]
+                pr = [p_ for p_ in st["pl"]["p"] if p_[0] != "d"]
+                if not pr and (l == 0 or l in sym._multi):
+                    defs[l] = res(sym.rvalue(st["rv"]))
+                    for k2 in [k2 for k2 in defs if isinstance(k2, tuple) and k2[0] == l]:
+                        del defs[k2]
+                elif len(pr) == 1 and pr[0][0] == "f" and l in sym._multi:
+                    defs[(l, str(pr[0][1]))] = res(sym.rvalue(st["rv"]))
+        t = blk["term"]
+        k = t["t"]
+        if goals is not None and bb in goals:
+            defs["@"] = bb
+            out.append((conds, defs))
+            if len(out) > max_paths:
+                raise _Undecided("too many paths")
+            continue
+        if k == "return":
+            if goals is not None:
+                continue
+            out.append((conds, defs))
+            if len(out) > max_paths:
+                raise _Undecided("too many paths")
+        elif k in ("goto", "drop", "assert"):
+            stack.append((t["target"], conds, defs, seen))
+        elif k == "call":
+            if not t["dest"]["p"] and (t["dest"]["l"] == 0 or t["dest"]["l"] in sym._multi):
+                defs[t["dest"]["l"]] = res(sym.call(t, bb))
+            if t.get("target") is not None:
+                stack.append((t["target"], conds, defs, seen))
+        elif k == "switch":
+            d = res(sym.operand(t["discr"]))
+            if t.get("dty") == "bool":
+                a = OL.atom(d)
+                f_t = None
+                for v, tb in t["targets"]:
+                    if v == 0:
+                        f_t = tb
+                if f_t is None:
+                    raise _Undecided("odd bool switch")
+                stack.append((f_t, conds + (("atom", a, False),), defs, seen))
+                stack.append((t["otherwise"], conds + (("atom", a, True),), defs, seen))
+            else:
+                c3 = None
+                if d[0] == "discr":
+                    c = strip_deep(d[1])
+                    if c[0] == "call" and (c[3] or {}).get("name") == "cmp" and len(c[2]) == 2 and \
+                            ((c[3] or {}).get("trait") or "").endswith("cmp::Ord"):
+                        c3 = (strip_deep(c[2][0]), strip_deep(c[2][1]))
+                listed = []
+                for v, tb in t["targets"]:
+                    sv = {255: -1, 0xffffffffffffffff: -1, -1: -1, 0: 0, 1: 1}.get(v)
+                    listed.append(sv)
+                    if c3 and sv is not None:
+                        stack.append((tb, conds + (("cmp3", c3[0], c3[1], frozenset([sv])),), defs, seen))
+                    else:
+                        stack.append((tb, conds + (("opaque", "%s=%s" % (render(d), v)),), defs, seen))
+                if c3 and None not in listed:
+                    rest = frozenset({-1, 0, 1} - set(listed))
+                    if rest:
+                        stack.append((t["otherwise"], conds + (("cmp3", c3[0], c3[1], rest),), defs, seen))
+                else:
+                    stack.append((t["otherwise"], conds + (("opaque", "%s=else" % render(d)),), defs, seen))
+        elif k in ("unreachable", "resume", "terminate"):
+            pass
+        else:
+            raise _Undecided(k)
+    return out
+
+
+def _order_value(t, env, leaf):
+    """Integer value of an ordered quantity: a leaf (leaf(rendered) -> name in env), or max/min of two such."""
+    t = strip_deep(t)
+    nm = leaf(t)
+    if nm is not None:
+        return env[nm]
+    if t[0] == "call" and (t[3] or {}).get("name") in ("max", "min") and len(t[2]) == 2 and \
+            ((t[3] or {}).get("krate") in ("core", "std")):
+        a, b = _order_value(t[2][0], env, leaf), _order_value(t[2][1], env, leaf)
+        return max(a, b) if t[3]["name"] == "max" else min(a, b)
+    raise _Undecided("not an ordered quantity: " + render(t)[:120])
+
+
+def _order_cond(c, env, leaf):
+    if c[0] == "cmp3":
+        x, y = _order_value(c[1], env, leaf), _order_value(c[2], env, leaf)
+        return ((x > y) - (x < y)) in c[3]
+    if c[0] == "atom":
+        def ev(a):
+            if a[0] == "const":
+                return a[1]
+            if a[0] == "not":
+                return not ev(a[1])
+            if a[0] == "cmp":
+                x, y = _order_value(a[2], env, leaf), _order_value(a[3], env, leaf)
+                return {"<": x < y, "<=": x <= y, ">": x > y, ">=": x >= y, "==": x == y, "!=": x != y}[a[1]]
+            raise _Undecided("tests something that is not a comparison: " + str(a[1])[:120])
+        return ev(c[1]) == c[2]
+    raise _Undecided("branches on " + c[1][:120])
+
+
+def _decide_orderings(body, names, judge, pre=None):
+    """On every weak ordering of the named quantities exactly the paths whose conditions hold are taken; judge(defs,
+    env, leaf) says whether what such a path returns is right.  names: [(regex on the rendered leaf, short name)].
+    -> (ok, detail)"""
+    import itertools
+    try:
+        ps = _order_paths(body)
+    except _Undecided as e:
+        return False, "not decided: %s" % e
+    rxs = [(re.compile(rx), nm) for rx, nm in names]
+
+    def leaf(t):
+        if pre is not None:
+            t = pre(t)
+        r = K.alpha(render(t), body)
+        for rx, nm in rxs:
+            if rx.match(r):
+                return nm
+        return None
+    snames = sorted({nm for _, nm in names})
+    n = 0
+    try:
+        for vals in itertools.product(range(max(2, len(snames))), repeat=len(snames)):
+            env = dict(zip(snames, vals))
+            taken = [defs for conds, defs in ps if all(_order_cond(c, env, leaf) for c in conds)]
+            if not taken:
+                return False, {"ordering": env, "problem": "no path"}
+            for defs in taken:
+                n += 1
+                if not judge(defs, env, leaf):
+                    return False, {"ordering": env, "returns": render(defs.get(0, ("unknown", "nothing")))[:200]}
+    except _Undecided as e:
+        return False, "not decided: %s" % e
+    return True, {"orderings": len(snames) ** max(2, len(snames)), "paths": len(ps), "evaluations": n}
+
+
+class _Rescue:
+    """Obligations stated by the shared helpers of props/common.py are passed through; one that does not hold in the
+    spelling the helper recognises is decided again by a spelling-independent argument given here."""
+
+    def __init__(self, ctx, deciders):
+        self._ctx = ctx
+        self._deciders = deciders
+
+    def ob(self, rule, key, ok, what, where=None, detail=None, nontrivial=True):
+        if not ok and key in self._deciders:
+            try:
+                r = self._deciders[key]()
+            except Exception as e:      # the second argument is optional: failing to make it leaves the verdict as it was
+                r = (False, "%s: %s" % (type(e).__name__, e))
+            if r and r[0]:
+                ok = True
+                what += "  [%s]" % r[1]
+            else:
+                detail = {"as_recognised": detail, "decided_again": r[1] if r else None}
+        return self._ctx.ob(rule, key, ok, what, where, detail, nontrivial)
+
+    def floor(self, rule, name, count, minimum):
+        return self.ob(rule, "floor:" + name, count >= minimum,
+                       "%s: matched %d instance(s), floor %d" % (name, count, minimum), nontrivial=False)
+
+    def missing(self, rule, key, what):
+        return self.ob(rule, key, False, "anchor missing: " + what)
+
+    def __getattr__(self, name):
+        return getattr(self._ctx, name)
+
+
+def _struct_field(t, name, index=None):
+    """Field `name` of a struct-valued term: of a literal, of a value with fields updated in place, or a projection."""
+    t = strip_deep(t)
+    if t[0] == "agg":
+        base = None
+        for i, (fl, v) in enumerate(t[3]):
+            if str(fl) == name:
+                return v
+            if fl == "..":
+                base = v
+        if base is not None:
+            return _struct_field(base, name, index)
+        raise _Undecided("no field %s in %s" % (name, render(t)[:80]))
+    return ("field", t, name, None)
+
+
+def _accessor_is_field(f, t):
+    """`x.not_before()` for an accessor that returns the field of that name is the field."""
+    def one(x):
+        if x[0] == "call" and len(x[2]) == 1 and (x[3] or {}).get("name") in ("not_before", "not_after") and \
+                x[1] == X + "Validity::" + x[3]["name"]:
+            ab = f.body(x[1])
+            if ab is not None and [render(v) for _, _, v in success_values(ab)] == ["self." + x[3]["name"]]:
+                return ("field", _map_term(strip_deep(x[2][0]), one), x[3]["name"], None)
+        return None
+    return _map_term(strip_deep(t), one)
+
+
+_BOUNDS = [(r"^self\.not_before(\.0)?$", "a"), (r"^%2\.not_before(\.0)?$", "b"),
+           (r"^self\.not_after(\.0)?$", "c"), (r"^%2\.not_after(\.0)?$", "d")]
+
+
+def _trim_decided(f, tb):
+    def judge(defs, env, leaf):
+        r = defs.get(0)
+        if r is None:
+            raise _Undecided("nothing returned")
+        r = _accessor_is_field(f, r)
+        if r[0] == "call" and r[1] == X + "Validity::new" and len(r[2]) == 2:
+            nb, na = r[2]                       # Validity::new stores its arguments in order: its own obligation
+        else:
+            nb, na = _struct_field(r, "not_before"), _struct_field(r, "not_after")
+        leaf2 = lambda t: leaf(_accessor_is_field(f, t))
+        return _order_value(nb, env, leaf2) == max(env["a"], env["b"]) and \
+            _order_value(na, env, leaf2) == min(env["c"], env["d"])
+    return _decide_orderings(tb, _BOUNDS, judge, pre=lambda t: _accessor_is_field(f, t))
+
+
+def _result_label(t):
+    t = strip_deep(t)
+    if t[0] == "agg" and t[1] == "std::result::Result":
+        return t[2]
+    raise _Undecided("returns " + render(t)[:120])
+
+
+def _validity_deciders(f):
+    """Spelling-independent second arguments for the obligations of K.check_validity_window."""
+    T = X + "Time::"
+    memo = {}
+
+    def window(name, spec):
+        def go():
+            if name not in memo:
+                b = f.body(T + name)
+                memo[name] = _decide_orderings(
+                    b, [(r"^self(\.0)?$", "s"), (r"^%2(\.0)?$", "n")],
+                    lambda defs, env, leaf: (_result_label(defs.get(0, ("unknown", ""))) == "Ok") == spec(env))
+            ok, det = memo[name]
+            return ok, "decided on every ordering of the two instants: %s" % (det,) if ok else det
+        return go
+
+    def conjunct(callee, recv):
+        def go():
+            b = f.body(X + "Validity::verify_at")
+            # (1) Ok is returned only as a conjunction (`and`, `and_then`, `?`) that contains the check
+            vals = [t for _, _, t in success_values(b)]
+            if vals and all(any(c[1] == T + callee and [render(a) for a in c[2]][:2] == [recv, "now"]
+                                for c in _ok_conjuncts(f, t)) for t in vals):
+                return True, "every value returned as Ok is a conjunction containing %s.%s(now)" % (recv, callee)
+            # (2) the comparisons written out in verify_at itself
+            ok, det = _decide_orderings(
+                b, [(r"^self\.not_before(\.0)?$", "a"), (r"^self\.not_after(\.0)?$", "c"), (r"^%2(\.0)?$", "n")],
+                lambda defs, env, leaf: (_result_label(defs.get(0, ("unknown", ""))) == "Ok") == (env["a"] <= env["n"] <= env["c"]))
+            return ok, "decided on every ordering of not_before, now, not_after: %s" % (det,) if ok else det
+        return go
+    return {
+        "Time::verify_not_before": window("verify_not_before", lambda e: e["s"] <= e["n"]),
+        "Time::verify_not_before:accepts": window("verify_not_before", lambda e: e["s"] <= e["n"]),
+        "Time::verify_not_after": window("verify_not_after", lambda e: e["n"] <= e["s"]),
+        "Time::verify_not_after:accepts": window("verify_not_after", lambda e: e["n"] <= e["s"]),
+        "Validity::verify_at→verify_not_before": conjunct("verify_not_before", "self.not_before"),
+        "Validity::verify_at→verify_not_after": conjunct("verify_not_after", "self.not_after"),
+    }
+
+
+def _ok_conjuncts(f, t, depth=0):
+    """The calls that must all have returned Ok for the Result `t` to be Ok (`a.and(b)`, `a.and_then(|_| b)`, `a?`,
+    `a.map_err(f)`, `a.map(g)`)."""
+    t = strip_deep(t)
+    if depth > 8 or t[0] != "call":
+        return []
+    nm = (t[3] or {}).get("name")
+    if _std_call(t) and t[2]:
+        if nm == "and" and len(t[2]) == 2:
+            return _ok_conjuncts(f, t[2][0], depth + 1) + _ok_conjuncts(f, t[2][1], depth + 1)
+        if nm in ("map_err", "map", "branch", "inspect", "inspect_err", "into", "from"):
+            return _ok_conjuncts(f, t[2][0], depth + 1)
+        if nm == "and_then" and len(t[2]) == 2:
+            out = _ok_conjuncts(f, t[2][0], depth + 1)
+            g = strip_deep(t[2][1])
+            if g[0] == "closure":
+                cb, m = K.closure_env(f, g, "_")
+                if cb is not None:
+                    from engine import sym as _symmod
+                    for _, _, v in success_values(cb):
+                        with _symmod.substituting(m):
+                            # read in the caller's vocabulary: render the arguments now
+                            for c in _ok_conjuncts(f, v, depth + 1):
+                                out.append(("call", c[1], tuple(("param", render(a)) for a in c[2]), c[3]))
+            return out
+        return []
+    return [t]
+
+
+def _left_padded_copy(p):
+    """The path returns from_array(buf) for a zeroed 20-octet buffer buf (`<[u8; 20]>::default()`, `[0; 20]`) after
+    copying s into buf[20 - len ..] (an open or a closed range)."""
+    m = re.match(r"^return Serial::from_array\((array::default\(\)|\[0; 20\])\)$", outcome_str(p.outcome))
+    if not m:
+        return False
+    buf = re.escape(m.group(1))
+    rx = re.compile(r"^array::index_mut\(%s, ops::(RangeFrom\{start: Sub\(20, n\)\}|Range\{start: Sub\(20, n\), end: 20\})\)$" % buf)
+    return any(re.search(r"(copy|clone)_from_slice$", e[0]) and rx.match(e[1][0]) and e[1][1] == "s" for e in p.effects)
+
+
+def _eval_u8(t, v):
+    """Value (mod 256) of an octet expression whose only variable part is an array element, taken to be v."""
+    t = strip_deep(t)
+    k = t[0]
+    if k == "const" and isinstance(t[1], int) and not isinstance(t[1], bool):
+        return t[1] & 0xFF
+    if k in ("index", "mvar") or (k == "field" and strip_deep(t[1])[0] == "index"):
+        return v if k != "mvar" else _eval_u8(t[3], v)
+    if k == "cast":
+        return _eval_u8(t[1], v)
+    if k == "un" and t[1] == "Not":
+        x = _eval_u8(t[2], v)
+        return None if x is None else (~x) & 0xFF
+    if k == "bin":
+        a, b = _eval_u8(t[2], v), _eval_u8(t[3], v)
+        if a is None or b is None:
+            return None
+        op = t[1]
+        if op in ("Rem", "Div") and b == 0:
+            return None
+        r = {"BitAnd": lambda: a & b, "BitOr": lambda: a | b, "BitXor": lambda: a ^ b, "Shr": lambda: a >> (b & 7),
+             "Shl": lambda: a << (b & 7), "Rem": lambda: a % b, "Div": lambda: a // b, "Sub": lambda: a - b,
+             "Add": lambda: a + b}.get(op)
+        return None if r is None else r() & 0xFF
+    return None
+
+
+def _format_script(f, wb):
+    """What a `write!`-based writer emits, read off the compiled format template(s) in the order they are written:
+    [('num', rendered value, width, zero padded) | ('lit', bytes)], or None when the body has another shape.  The
+    template encoding is the one documented at core::fmt::Arguments (string pieces prefixed by their length,
+    placeholders 0b11…… with optional flags / width / precision / argument index)."""
+    oc = outcome(wb)
+    sym = oc.sym
+    news = [c for c in wb.calls() if not wb.is_cleanup(c.bb) and c.is_static and c.name == "new" and
+            re.search(r"fmt::Arguments\b", c.fn or "")]
+    writes = [c for c in wb.calls() if not wb.is_cleanup(c.bb) and c.is_static and c.name == "write_fmt"]
+    if not news or len(news) != len(writes):
+        return None
+    rets = oc.returns()
+    for c in news + writes:
+        if wb.path(0, rets, set(oc.fail_blocks) | {c.bb}) is not None:
+            return None                     # not on every success path
+    if not all(call_checked(wb, c.bb, oc)[0] for c in writes):
+        return None
+    path = wb.path(0, rets, set(oc.fail_blocks)) or []
+    order = {bb: i for i, bb in enumerate(path)}
+    if any(c.bb not in order for c in news):
+        return None
+    out = []
+    for c in sorted(news, key=lambda c: order[c.bb]):
+        a = K.arg_terms(c)
+        if len(a) != 2 or a[0][0] != "bytes" or a[1][0] != "agg" or a[1][1] != "array":
+            return None
+        vals = []
+        for _, v in a[1][3]:
+            v = strip_deep(v)
+            if v[0] != "call" or (v[3] or {}).get("name") != "new_display" or len(v[2]) != 1:
+                return None
+            vals.append(render(strip_deep(v[2][0])))
+        tpl = a[0][1]
+        i, nxt = 0, 0
+        while True:
+            if i >= len(tpl):
+                return None
+            b0 = tpl[i]
+            i += 1
+            if b0 == 0:
+                if i != len(tpl):
+                    return None
+                break
+            if b0 < 0x80:
+                out.append(("lit", bytes(tpl[i:i + b0])))
+                i += b0
+            elif b0 == 0x80:
+                n = tpl[i] | (tpl[i + 1] << 8)
+                out.append(("lit", bytes(tpl[i + 2:i + 2 + n])))
+                i += 2 + n
+            elif b0 & 0xC0 == 0xC0:
+                flags, width, idx = 0x20 | (3 << 29), 0, None
+                if b0 & 1:
+                    flags = int.from_bytes(tpl[i:i + 4], "little")
+                    i += 4
+                if b0 & 2:
+                    width = int.from_bytes(tpl[i:i + 2], "little")
+                    i += 2
+                if b0 & 4:
+                    i += 2
+                if b0 & 8:
+                    idx = int.from_bytes(tpl[i:i + 2], "little")
+                    i += 2
+                if b0 & 0x30 or b0 & 4:
+                    return None             # dynamic width / a precision: not a fixed-width number
+                if idx is None:
+                    idx = nxt
+                nxt = idx + 1
+                if idx >= len(vals):
+                    return None
+                fill, align = flags & 0x1FFFFF, (flags >> 29) & 3
+                zero = bool(flags & (1 << 24)) or (fill == 0x30 and align == 1)
+                if flags & ((1 << 21) | (1 << 23) | (1 << 25) | (1 << 26)):
+                    zero = False            # '+', '#', hex: not the plain decimal
+                out.append(("num", vals[idx], width, zero))
+            else:
+                return None
+    # merge adjacent pieces
+    merged = []
+    for x in out:
+        if x[0] == "lit" and merged and merged[-1][0] == "lit":
+            merged[-1] = ("lit", merged[-1][1] + x[1])
+        else:
+            merged.append(x)
+    if any(x[0] == "num" and not x[3] for x in merged):
+        return [("num", x[1], -x[2] - 1, False) if x[0] == "num" and not x[3] else x for x in merged]
+    return merged
+
+
+def _resolve(t, defs):
+    """A term with its several-times-assigned locals replaced by what the path assigned to them last."""
+    def one(x):
+        if x[0] == "field" and x[1][0] in ("var", "mvar") and (x[1][2], str(x[2])) in defs:
+            return defs[(x[1][2], str(x[2]))]       # a field assigned on this path
+        if x[0] in ("var", "mvar") and x[2] in defs:
+            over = tuple((fl, v) for (l2, fl), v in ((k2, v2) for k2, v2 in defs.items() if isinstance(k2, tuple)) if l2 == x[2])
+            if over:
+                return ("agg", "<updated>", "", over + (("..", defs[x[2]]),))
+            return defs[x[2]]
+        return None
+    return strip_deep(_map_term(strip_deep(t), one))
+
+
+def _eval_int(t, leaf):
+    """Integer / boolean value of an arithmetic term; leaf(term) -> value for the variable parts, None = unknown."""
+    t = strip_deep(t)
+    v = leaf(t)
+    if v is not None:
+        return v
+    k = t[0]
+    if k == "const" and isinstance(t[1], (int, bool)):
+        return int(t[1])
+    if k == "cast":
+        return _eval_int(t[1], leaf)
+    if k == "mvar":
+        return _eval_int(t[3], leaf)
+    if k == "field" and str(t[2]) == "0" and strip_deep(t[1])[0] == "bin" and strip_deep(t[1])[1].endswith("WithOverflow"):
+        b = strip_deep(t[1])
+        return _eval_int(("bin", b[1][:-len("WithOverflow")], b[2], b[3]), leaf)
+    if k == "un" and t[1] == "Not":
+        x = _eval_int(t[2], leaf)
+        return None if x is None else int(not x)
+    if k == "bin":
+        a, b = _eval_int(t[2], leaf), _eval_int(t[3], leaf)
+        if a is None or b is None:
+            return None
+        op = t[1]
+        if op.endswith("WithOverflow") or op.endswith("Unchecked"):
+            op = op.replace("WithOverflow", "").replace("Unchecked", "")
+        if op in ("Div", "Rem") and b == 0:
+            return None
+        fn = {"Add": lambda: a + b, "Sub": lambda: a - b, "Mul": lambda: a * b, "Rem": lambda: a - b * int(a / b),
+              "Div": lambda: int(a / b), "Lt": lambda: int(a < b), "Le": lambda: int(a <= b), "Gt": lambda: int(a > b),
+              "Ge": lambda: int(a >= b), "Eq": lambda: int(a == b), "Ne": lambda: int(a != b),
+              "BitAnd": lambda: a & b, "BitOr": lambda: a | b}.get(op)
+        return None if fn is None else fn()
+    return None
+
+
+def _atom_value(a, leaf):
+    """Truth of an orderlogic atom under leaf values; None when it tests something else."""
+    if a[0] == "const":
+        return bool(a[1])
+    if a[0] == "not":
+        v = _atom_value(a[1], leaf)
+        return None if v is None else not v
+    if a[0] == "cmp":
+        x, y = _eval_int(a[2], leaf), _eval_int(a[3], leaf)
+        if x is None or y is None:
+            return None
+        return {"<": x < y, "<=": x <= y, ">": x > y, ">=": x >= y, "==": x == y, "!=": x != y}[a[1]]
+    return None
+
+
+def _pivot_decided(f, b, readers, cal_names):
+    """The year handed to the calendar validator by the UTCTime arm of decoder b, evaluated for every two-digit value
+    yy = 0..99 of the first field on every path on which the tests made of yy hold: 1900 + yy for yy >= 50, else
+    2000 + yy.  Independent of how the choice is spelt (if/else either way round, the addend chosen instead of the
+    sum, a range pattern, a named constant for the pivot).  -> (applies, ok, detail)"""
+    consts = getattr(f, "consts", {})
+    four = [c.bb for c in b.calls() if not b.is_cleanup(c.bb) and readers.width(c) == 4]
+    after_four = set()
+    for bb in four:
+        after_four |= set(b.reachable(bb))
+    goals = {c.bb: c for c in b.calls() if not b.is_cleanup(c.bb) and c.is_static and c.res in cal_names and c.bb not in after_four}
+    if not goals:
+        return False, False, "no UTCTime arm"
+    try:
+        ps = _order_paths(b, goals=set(goals), max_paths=4000)
+    except _Undecided as e:
+        return True, False, "not decided: %s" % e
+    if not ps:
+        return True, False, "the calendar validator is not reached"
+
+    def first_read(t):
+        x = _peel_payload(t)
+        if x[0] != "call" or x[1] not in readers.cand:
+            return None
+        w = readers._w(x[1], tuple((x[3] or {}).get("ga") or ())) or _REVIEWED_WIDTH.get(x[1])
+        return x if w == 2 else None
+    seen = [0] * 100
+    for conds, defs in ps:
+        c = goals[defs["@"]]
+        args = [K.fold_consts(_resolve(a, defs), consts) for a in K.arg_terms(c)]
+        if len(args) == 1 and args[0][0] == "agg" and args[0][1] == "tuple" and len(args[0][3]) == 6:
+            year = args[0][3][0][1]
+        elif len(args) == 6:
+            year = args[0]
+        else:
+            return True, False, "cannot see the year handed to %s: %s" % (short(c.res), render(args[0])[:160] if args else "")
+        srcs = {(x[3] or {}).get("bb") for x in (first_read(y) for y in walk(year)) if x is not None}
+        if len(srcs) != 1:
+            return True, False, "the year is not a function of one two-digit field: %s" % render(year)[:160]
+        src = srcs.pop()
+
+        def leaf_for(yy):
+            def leaf(t):
+                x = first_read(t)
+                if x is not None and (x[3] or {}).get("bb") == src:
+                    return yy
+                return None
+            return leaf
+        for yy in range(100):
+            lf = leaf_for(yy)
+            feasible = True
+            for cnd in conds:
+                if cnd[0] == "atom":
+                    v = _atom_value(_fold_atom(cnd[1], consts), lf)
+                    if v is not None and v != cnd[2]:
+                        feasible = False
+                        break
+                elif cnd[0] == "cmp3":
+                    x, y = _eval_int(K.fold_consts(cnd[1], consts), lf), _eval_int(K.fold_consts(cnd[2], consts), lf)
+                    if x is not None and y is not None and ((x > y) - (x < y)) not in cnd[3]:
+                        feasible = False
+                        break
+            if not feasible:
+                continue
+            got = _eval_int(year, lf)
+            want = yy + (1900 if yy >= 50 else 2000)
+            if got != want:
+                return True, False, {"yy": yy, "year": got, "expected": want, "term": render(year)[:200]}
+            seen[yy] += 1
+    if not all(seen):
+        return True, False, {"no_path_for_yy": [i for i, n in enumerate(seen) if not n][:5]}
+    return True, True, {"paths": len(ps), "values": 100}
+
+
+def _fold_atom(a, consts):
+    if a[0] == "not":
+        return ("not", _fold_atom(a[1], consts))
+    if a[0] == "cmp":
+        return ("cmp", a[1], K.fold_consts(a[2], consts), K.fold_consts(a[3], consts))
+    return a
+
+
+def _pivot_deciders(f):
+    """Second arguments for the obligations of K.check_time_pivots."""
+    memo = {}
+
+    def decoders():
+        if "d" not in memo:
+            readers = _Readers(f)
+            cal = {b.name for b in _calendar_fns(f)}
+            res = {}
+            for b in _decoder_bodies(f, readers):
+                applies, ok, det = _pivot_decided(f, b, readers, cal)
+                if applies:
+                    res.setdefault(short(root_fn(f, b.name)), []).append((ok, det))
+            memo["d"] = res
+        return memo["d"]
+
+    def one(root):
+        def go():
+            r = decoders().get(root)
+            ok = bool(r) and all(x[0] for x in r)
+            return ok, "year evaluated for every yy in 0..=99: %s" % ([x[1] for x in r],) if ok else [x[1] for x in (r or [])]
+        return go
+
+    def floor():
+        r = decoders()
+        ok = bool(r) and all(x[0] for v in r.values() for x in v)
+        return ok, "%d UTCTime arm(s): year evaluated for every yy in 0..=99" % sum(len(v) for v in r.values()) if ok else \
+            {k: [x[1] for x in v] for k, v in r.items()}
+
+    def region(which):
+        def go():
+            eb = f.body(X + "Time::encode_varied")
+            paths, it, err = K.run_absint(f, eb.name, sym_names={"DateTime::year(Time::deref(self))": "year", "DateTime::year(self.0)": "year"})
+            if paths is None:
+                return False, err
+            ysym = [s_ for p in paths for s_ in p.zone.syms if "year" in s_]
+            y = ysym[0] if ysym else "year"
+            # the two wrappers, called through Time::encode_*_time (when that is still the wrapper) or directly
+            alt = {}
+            for ty, meth in (("UtcTime", "encode_utc_time"), ("GeneralizedTime", "encode_generalized_time")):
+                direct = r"PrimitiveContent::encode\(x509::%s(::%s)?\{0: self\}\)" % (ty, ty)
+                mb = f.body(X + "Time::" + meth)
+                via = mb is not None and all(re.match("^" + direct + "$", render(t)) for _, _, t in success_values(mb)) and success_values(mb)
+                alt[ty] = "(%s%s)" % (direct, r"|Time::%s\(self\)" % meth if via else "")
+            utc = re.compile(r"^return \(Some\(%s\), None\)$" % alt["UtcTime"])
+            gen = re.compile(r"^return \(None, Some\(%s\)\)$" % alt["GeneralizedTime"])
+            lo, hi, rx = {"year<1950": (None, 1949, gen), "1950≤year≤2049": (1950, 2049, utc), "year>2049": (2050, None, gen)}[which]
+            ps = absint.paths_in_region(paths, RC(y, lo, hi))
+            ok = bool(ps) and all(rx.match(outcome_str(p.outcome)) and not p.conds for p in ps)
+            return ok, "the wrapper type is applied directly" if ok else [outcome_str(p.outcome) for p in ps][:3]
+        return go
+    d = {"floor:UTCTime field readers with a year pivot": floor}
+    for root in ("Time::take_from", "Time::take_opt_from"):
+        d["%s:two-digit-year-pivot-50" % root] = one(root)
+    for which in ("year<1950", "1950≤year≤2049", "year>2049"):
+        d["Time::encode_varied:" + which] = region(which)
+    return d
